@@ -4,6 +4,7 @@ package verifsim
 // the reference model M(H, P): what a replica that starts at P must deliver.
 
 import (
+	"bytes"
 	"fmt"
 	"strings"
 )
@@ -143,6 +144,7 @@ type HistCfg struct {
 	Format     formatParams
 	MasterID   uint32
 	BigOffsets bool
+	CarryMaps  bool // a statement may leave out a table map that would repeat, byte for byte, the latest one sent for that id
 }
 
 // History is a complete generated multi-file binlog.
@@ -158,6 +160,7 @@ type History struct {
 	nextTS         uint32
 	marker         int
 	overflow       bool
+	carried        int // CarryMaps: table maps left out
 	replicaID      uint32
 	byID           map[uint64]*TableDef
 	sessionCharset *[3]int32
@@ -181,6 +184,7 @@ type GenOpts struct {
 	CaseMix      bool
 	ForceCfg     *HistCfg
 	BigOffsets   bool
+	CarryMaps    bool   // C15: see HistCfg.CarryMaps (one history in five)
 	TableIDReuse bool   // several ids, re-announcements, type changes
 	AliasMapper  bool   // some histories: the mapper answers some tables under another name
 	OddNames     bool   // unusual binlog file names
@@ -260,6 +264,7 @@ func genHistCfg(s *Stream, o *GenOpts) HistCfg {
 	c.Format.PadBits = s.Weighted(3, 3, 2, 1)
 	c.MasterID = []uint32{1, 2, 100, 1<<31 - 1, 1 << 31, 1<<32 - 1}[s.N(6)]
 	c.BigOffsets = o.BigOffsets && s.Chance(1, 4)
+	c.CarryMaps = o.CarryMaps && s.Chance(1, 5)
 	return c
 }
 
@@ -417,12 +422,13 @@ type builder struct {
 	file        int
 	off         uint32
 	unit        int
-	forceRows   bool   // every rows event carries at least one row
-	unitSID     uint32 // server id stamped on the events of the current unit (0 = the master's)
-	nameBase    int    // first binlog index of this master minus one
-	bulk        int    // the next transaction holds this many single-row statements
-	filler      int    // the next ignorable unit is a run of this many tiny events
-	forceNextTx bool   // the previous file ended with a torn transaction: the next unit must open with BEGIN
+	forceRows   bool              // every rows event carries at least one row
+	unitSID     uint32            // server id stamped on the events of the current unit (0 = the master's)
+	nameBase    int               // first binlog index of this master minus one
+	bulk        int               // the next transaction holds this many single-row statements
+	filler      int               // the next ignorable unit is a run of this many tiny events
+	forceNextTx bool              // the previous file ended with a torn transaction: the next unit must open with BEGIN
+	lastMap     map[uint64][]byte // CarryMaps: body of the latest table map sent for each table id
 }
 
 func swapCase(x string) string {
@@ -483,6 +489,16 @@ func (b *builder) add(typ byte, ts uint32, flags uint16, body []byte, desc strin
 		b.h.overflow = true // offsets are 32 bit: this history cannot exist
 	}
 	ev.Raw = encodeEvent(ts, typ, sid, ev.End, flags, body, withCk)
+	if typ == evTableMap && cfg.CarryMaps {
+		if id, _, ok := tableMapHead(b.h, ev); ok {
+			if b.lastMap == nil {
+				b.lastMap = map[uint64][]byte{}
+			}
+			b.lastMap[id] = body
+		} else {
+			b.lastMap = nil // a table map the harness cannot attribute: nothing is left out after it
+		}
+	}
 	b.off = ev.End
 	f := b.curFile()
 	f.Events = append(f.Events, ev)
@@ -820,6 +836,12 @@ func (b *builder) rowsStatement(ts uint32, tables []*TableDef) []ExpEvent {
 	for _, t := range tables {
 		types, meta, nullable := t.typesAndMeta()
 		body := tableMapBody(cfg.Format, t.ID, t.Flags, t.DB, t.Name, types, meta, nullable, t.OptMeta)
+		if cfg.CarryMaps && b.lastMap != nil && bytes.Equal(b.lastMap[t.ID], body) && s.Chance(1, 2) {
+			// legal for a master (the replica keeps the latest table map of an id, across
+			// transactions, rolled back ones included): the rows events come without a new one
+			b.h.carried++
+			continue
+		}
 		b.add(evTableMap, ts, 0, body, fmt.Sprintf("TABLE_MAP id=%d %s.%s cols=%d", t.ID, t.DB, t.Name, len(t.Cols)))
 	}
 	midIgnorable := func() {
